@@ -263,6 +263,8 @@ def m_e2e(ctx, case):
     th = threading.Thread(target=serve, daemon=True)
     th.start()
     rec = {"sizes": [], "emitted": [], "timeouts": 0}
+    if kind == "sky":
+        exp = exp[:-1]   # the last Skysense frame is never followed by a frame start, so it is never due
     sentinel = exp[-1][1]
 
     class SockProxy:
@@ -493,7 +495,7 @@ def cases(ctx):
         yield "netsource", {"batches": batches}
     # end-to-end sessions
     for k in range(ctx.share(12 if quick else 200)):
-        fmt, mk = (("beast", beast_specs), ("raw", raw_specs), ("sky", sky_specs))[k % 3]
+        fmt, mk = (("beast", beast_specs), ("raw", raw_specs), ("sky", sky_specs))[(k + ctx.shard) % 3]
         specs = mk(rng, rng.randint(4, 10))
         stream = mk_stream(fmt, specs)[0]
         n = len(stream)
